@@ -72,6 +72,11 @@ func (f *Future[T]) EnqueueMessage(message T) {
 	f.close(message)
 }
 
+// IsClosed 返回 Future 是否已完成（成功、失败或超时）
+func (f *Future[T]) IsClosed() bool {
+	return f.closed.Load()
+}
+
 func (f *Future[T]) Close(err error) {
 	f.close(err)
 }
